@@ -536,7 +536,7 @@ NvmModule *nvm_deserialize(const uint8_t *data, uint32_t size) {
                 while (pos + 4 <= sec_size) {
                     uint32_t slen = le_read_u32(sec_data + pos);
                     pos += 4;
-                    if (pos + slen > sec_size) break;
+                    if (slen > sec_size - pos) break; /* pos + slen can wrap */
                     nvm_add_string(mod, (const char *)(sec_data + pos), slen);
                     pos += slen;
                 }
